@@ -217,7 +217,7 @@ structure IoSpec where
   itype : Nat
   otype : Nat
   flags : Nat
-  e : Bool := false   -- io_spec.e != NULL (set by `soxr_io_spec` for invalid datatypes; `soxr_create` never looks at it)
+  e : Bool := false   -- io_spec.e != NULL (set by `soxr_io_spec` for invalid datatypes)
   deriving DecidableEq, Repr, Inhabited
 
 structure RtSpec where
@@ -353,7 +353,9 @@ def c15 : Dbl := ofBits Gen.lit_15
 def c33 : Dbl := ofBits Gen.lit_33
 def c20 : Dbl := ofBits Gen.lit_20
 def c100 : Dbl := ofBits Gen.lit_100
-def c2p31 : Dbl := ofBits Gen.lit_2p31
+/-- `_soxr_init`: factors must be `< 2^31 - 1`; `vr_create`: `< 2^30` -/
+def cFactorMax : Dbl := ofBits Gen.lit_factor_max
+def cVrFactorMax : Dbl := ofBits Gen.lit_vr_factor_max
 def c1em15 : Dbl := ofBits Gen.lit_1em15
 
 /-! ## `_soxr_init`: the validation block -/
@@ -363,12 +365,13 @@ def tbw0 (q : QSpec) : Dbl := sub q.sb q.pb
 
 def imagingTest (r : Dbl) (q : QSpec) : Bool :=
   lt r one && gt (sub q.sb one) (sub one (div q.pb tolerance))
-def tbwTest (q : QSpec) : Bool := gt tbwLo (tbw0 q) || gt (tbw0 q) tbwHi
-def bandTest (q : QSpec) : Bool := gt pbLo q.pb || gt q.sb sbHi
-def precisionTest (q : QSpec) : Bool := ne q.precision zero && (gt c15 q.precision || gt q.precision c33)
+/-- the range tests are written `!(lo <= x && x <= hi)`: a NaN fails them -/
+def tbwTest (q : QSpec) : Bool := !(le tbwLo (tbw0 q) && le (tbw0 q) tbwHi)
+def bandTest (q : QSpec) : Bool := !(le pbLo q.pb && le q.sb sbHi)
+def precisionTest (q : QSpec) : Bool := ne q.precision zero && !(le c15 q.precision && le q.precision c33)
 def notPositiveTest (r : Dbl) : Bool := !gt r zero
-def tooLargeTest (r : Dbl) : Bool := !lt r c2p31
-def phaseTest (q : QSpec) : Bool := gt zero q.phase || gt q.phase c100
+def tooLargeTest (r : Dbl) : Bool := !lt r cFactorMax
+def phaseTest (q : QSpec) : Bool := !(le zero q.phase && le q.phase c100)
 
 /-- the error returns at the top of `_soxr_init`, in the order the code tests them -/
 def engineValidate (r : Dbl) (q : QSpec) : Option ErrorKind :=
@@ -422,9 +425,11 @@ def selectEngine (q : QSpec) (env : Env) (cpu : Cpu) : Engine :=
 
 /-! ## `soxr_create` -/
 
-/-- `io_ratio` as `soxr_create` computes it from the two rates -/
+/-- `io_ratio` as `soxr_create` computes it from the two rates: a negative rate gives −1 (each rate, not only the
+    quotient, must be positive) -/
 def ioRatioOf (ir orr : Dbl) : Dbl :=
-  if ne orr zero then (if ne ir zero then div ir orr else minusOne)
+  if lt ir zero || lt orr zero then minusOne
+  else if ne orr zero then (if ne ir zero then div ir orr else minusOne)
   else (if ne ir zero then minusOne else zero)
 
 /-- backwards compatibility with the original API: band edges given in percent -/
@@ -434,7 +439,8 @@ def rescale (q : QSpec) : QSpec :=
 
 /-- what the engine's `create` entry answers -/
 def engineCreate (eng : Engine) (r : Dbl) (q : QSpec) : Option ErrorKind :=
-  if eng = .vr32 then none else engineValidate r q
+  if eng = .vr32 then (if !lt r cVrFactorMax then some .factorTooLarge else none)   -- vr_create: octave count uses int shifts
+  else engineValidate r q
 
 structure Accepted where
   engine : Engine
@@ -452,7 +458,8 @@ def effectiveQ (c : Config) : QSpec :=
 def effectiveRt (c : Config) : RtSpec := applyEnv c.env (c.rt.getD (runtimeDefault 1))
 
 def qErr (c : Config) : Bool := match c.q with | some q => q.e | none => false
-def ioErr (c : Config) : Bool := match c.io with | some io => decide (8 ≤ io.itype ||| io.otype) | none => false
+/-- `io_spec->e` (set by `soxr_io_spec` for invalid codes) or a datatype code `>= 8` -/
+def ioErr (c : Config) : Bool := match c.io with | some io => io.e || decide (8 ≤ io.itype ||| io.otype) | none => false
 
 /-- `soxr_create`: `error _` = NULL and that error string; `ok _` = a live resampler -/
 def validate (c : Config) : Except ErrorKind Accepted :=
@@ -572,16 +579,16 @@ def output (s : Api) (outNull : Bool) (olen : Nat) (fn : FnObs) : Api × Ret :=
     `soxr_output` called it. -/
 def process (s : Api) (inNull outNull : Bool) (olen : Nat) (fn : FnObs) : Api × Ret :=
   if outNull && inNull then (s, .frames .zero s.error)
-  else if s.bothSplit then
-    -- the split-in/split-out path never looks at p->error (and never calls the input function)
-    if !s.built || outNull then (s, .misuse)
-    else (s, .frames .any s.error)
   else match s.error with
-    | some e => (s, .frames .zero (some e))          -- soxr_input and soxr_output both return 0 at once
+    | some e => (s, .frames .zero (some e))          -- sticky on every path: nothing consumed, nothing delivered
     | none =>
-      match output s outNull olen fn with
-      | (s', .count n) => (s', .frames n s'.error)
-      | (s', r) => (s', r)
+      if s.bothSplit then
+        -- the split-in/split-out path drives the engine directly (and never calls the input function)
+        if !s.built || outNull then (s, .misuse)
+        else (s, .frames .any none)
+      else match output s outNull olen fn with
+        | (s', .count n) => (s', .frames n s'.error)
+        | (s', r) => (s', r)
 
 def delay (s : Api) : Api × Ret :=
   if s.error.isSome || !s.built then (s, .count .zero) else (s, .count .any)
@@ -604,7 +611,7 @@ def step (s : Api) : Op → Api × Ret
   | .delay => delay s
   | .clear => clear s
   | .error => (s, .status s.error)
-  | .engine => if s.wiped then (s, .nullCall) else (s, .name s.engine.name)
+  | .engine => if s.wiped then (s, .name Gen.engineNameWiped) else (s, .name s.engine.name)
 
 /-- run a call sequence, collecting what every call returned -/
 def run (s : Api) : List Op → Api × List Ret
